@@ -159,4 +159,9 @@ theorem accepted_v1_is_written_src (b : Bytes) (hb : ∀ x ∈ b, x < 256) (z : 
       b = Spec.encodeV1 z l :=
   accepted_v1_is_written b hb z (SrcEq.parse_tz_file_eq b ▸ h) hv
 
+/-- the footer decoder (`str::from_utf8`, the NL · text · NL framing repaired by the F4 fix, trimming, the ':' / NUL
+    refusals, then the TZ-string parser) translated from the source equals the model's -/
+theorem translated_footer_is_the_model (f : Bytes) (ext : Bool) : Src.parse_footer f ext = parseFooter f ext :=
+  SrcEq.parse_footer_eq f ext
+
 end TzVerif.C08
